@@ -29,43 +29,35 @@ Proof. repeat split; [apply metavars_in_order_perm|apply metavars_len_perm|apply
 
 Definition conv := "metamath/converter/converter.py".
 
+(** A site is identified by WHAT is iterated (local names erased; a local is replaced by the expression it is bound to) and HOW
+    the elements are consumed (the attributes / functions its loop body mentions), inside which class or top-level function —
+    not by local variable names, line numbers or the method it happens to sit in. *)
 Definition table : list matched := [
-  {| m_site := {| s_file := "counting_interpreter.py"; s_func := "CountingInterpreter.finalize";
-                  s_kind := "for:set"; s_expr := "dependencies" |};
-     m_model := "Det.Finalize.round (first oracle call: od)"; m_statement := S_finalize;
+  {| m_site := {| s_file := "counting_interpreter.py"; s_func := "CountingInterpreter"; s_kind := "for:set";
+                  s_expr := "{_ for _, _ in self._pattern_usage.items() if _ in _.used_patterns} | body uses: _pattern_usage,_replace,add,complexity,used_patterns" |};
+     m_model := "Det.Finalize.round (first oracle call: od) — the dependencies of the memoised pattern"; m_statement := S_finalize;
      m_proof := finalize_perm_invariant |};
-  {| m_site := {| s_file := "counting_interpreter.py"; s_func := "CountingInterpreter.finalize";
-                  s_kind := "for:set"; s_expr := "requires_updating" |};
-     m_model := "Det.Finalize.round (second oracle call: orr)"; m_statement := S_finalize;
+  {| m_site := {| s_file := "counting_interpreter.py"; s_func := "CountingInterpreter"; s_kind := "for:set";
+                  s_expr := "set() filled by add | body uses: _compute_complexity_score" |};
+     m_model := "Det.Finalize.round (second oracle call: orr) — re-scoring of the entries that changed"; m_statement := S_finalize;
      m_proof := finalize_perm_invariant |};
-  {| m_site := {| s_file := conv; s_func := "MetamathConverter._import_axiom";
-                  s_kind := "call:tuple:set"; s_expr := "metavar_names" |};
+  {| m_site := {| s_file := conv; s_func := "MetamathConverter"; s_kind := "call:tuple:set";
+                  s_expr := "set(_.metavars) filled by update" |};
      m_model := "Det.Converter.metavars_in_order / length / mem_str (the consumers of the metavars field)";
      m_statement := S_metavars; m_proof := P_metavars |};
-  {| m_site := {| s_file := conv; s_func := "MetamathConverter._import_lemma";
-                  s_kind := "call:tuple:set"; s_expr := "metavar_names" |};
-     m_model := "Det.Converter.metavars_in_order / length / mem_str"; m_statement := S_metavars; m_proof := P_metavars |};
-  {| m_site := {| s_file := conv; s_func := "MetamathConverter._make_axiom_from_notation";
-                  s_kind := "call:sorted:set"; s_expr := "{var for var in notation.args if scope.is_metavar(var)}" |};
+  {| m_site := {| s_file := conv; s_func := "MetamathConverter"; s_kind := "call:sorted:set";
+                  s_expr := "{_ for _ in _.args if _.is_metavar(_)}" |};
      m_model := "Det.Converter.sort_str"; m_statement := S_sorted; m_proof := sorted_perm_invariant |};
-  {| m_site := {| s_file := conv; s_func := "MetamathConverter._make_lemma_from_notation";
-                  s_kind := "call:sorted:set"; s_expr := "{var for var in notation.args if scope.is_metavar(var)}" |};
-     m_model := "Det.Converter.sort_str"; m_statement := S_sorted; m_proof := sorted_perm_invariant |};
-  {| m_site := {| s_file := "metamath/translate.py"; s_func := "main";
-                  s_kind := "for:fs"; s_expr := "output_dir.glob('*.mm')" |};
+  {| m_site := {| s_file := "metamath/translate.py"; s_func := "main"; s_kind := "for:fs";
+                  s_expr := "_.glob('*.mm') | body uses: unlink" |};
      m_model := "Det.Converter.unlink_all"; m_statement := S_unlink; m_proof := unlink_all_perm |};
   (* consumers of the attribute that carries the set-ordered tuple *)
-  {| m_site := {| s_file := conv; s_func := "MetamathConverter.get_metavars";
-                  s_kind := "tainted-attr:assign"; s_expr := "axiom.metavars" |};
+  {| m_site := {| s_file := conv; s_func := "MetamathConverter"; s_kind := "tainted-attr:assign"; s_expr := "_.metavars" |};
      m_model := "metavars = axiom.metavars; return set(metavars): Det.Converter mem_str";
      m_statement := S_metavars; m_proof := P_metavars |};
-  {| m_site := {| s_file := conv; s_func := "MetamathConverter._import_axiom";
-                  s_kind := "tainted-attr:call:update"; s_expr := "antecedent.metavars" |};
+  {| m_site := {| s_file := conv; s_func := "MetamathConverter"; s_kind := "tainted-attr:call:update"; s_expr := "_.metavars" |};
      m_model := "metavar_names.update(...) on a set: Det.Converter mem_str of the union";
-     m_statement := S_metavars; m_proof := P_metavars |};
-  {| m_site := {| s_file := conv; s_func := "MetamathConverter._import_lemma";
-                  s_kind := "tainted-attr:call:update"; s_expr := "antecedent.metavars" |};
-     m_model := "metavar_names.update(...) on a set"; m_statement := S_metavars; m_proof := P_metavars |}
+     m_statement := S_metavars; m_proof := P_metavars |}
 ].
 
 Definition is_matched (s : site) : bool := existsb (fun m => site_eqb s (m_site m)) table.
